@@ -82,9 +82,12 @@ def DimWF : DimDesc α → Prop
   | .set _ => True
   | .frame _ _ => True
 
-/-- positions the sampled kernel is specified for: finite, below coordinate number `fuelDefault` (2^62), index estimate below 2^53 -/
+/-- positions the kernels are specified for — sampled: finite, below coordinate number `fuelDefault` (2^62), index estimate below 2^53;
+    set / data frame: below 2^64 (beyond it no index type holds the answer: `count_index_beyond`) -/
 def InScope : DimDesc α → α → Prop
   | .sampled si off _, x => isFinite x = true ∧ x < posAt si off fuelDefault ∧ floor (div (sub x off) si) < ofNat 9007199254740992
+  | .set _, x => x < ofNat indexLimit
+  | .frame _ _, x => x < ofNat indexLimit
   | _, _ => True
 
 theorem axisOf_strictMono (d : DimDesc α) (h : DimWF d) : (axisOf d).StrictMono := by
@@ -118,8 +121,8 @@ theorem index_spec (d : DimDesc α) (h : DimWF d) (x : α) (hx : InScope d x) (m
     obtain ⟨h1, h2, h3, h4⟩ := h
     exact sampled_index_spec fuelDefault x off si m h1 h2 h3 hx.1 h4 hx.2.1 hx.2.2
   | range ticks u => exact range_index_spec ticks h x m
-  | set n => exact count_index_spec x n m
-  | frame n u => exact count_index_spec x n m
+  | set n => exact count_index_spec x n m hx
+  | frame n u => exact count_index_spec x n m hx
 
 theorem pair_spec (d : DimDesc α) (h : DimWF d) (s e : α) (hs : InScope d s) (he : InScope d e) (rm : RangeMatch) :
     IsPair (axisOf d) rm s e (d.pair s e rm) := by
@@ -128,8 +131,8 @@ theorem pair_spec (d : DimDesc α) (h : DimWF d) (s e : α) (hs : InScope d s) (
     obtain ⟨h1, h2, h3, h4⟩ := h
     exact sampled_pair_spec fuelDefault off si s e rm h1 h2 h3 hs.1 he.1 h4 hs.2.1 he.2.1 hs.2.2 he.2.2
   | range ticks u => exact range_pair_spec ticks h s e rm
-  | set n => exact count_pair_spec n s e rm
-  | frame n u => exact count_pair_spec n s e rm
+  | set n => exact count_pair_spec n s e rm hs he
+  | frame n u => exact count_pair_spec n s e rm hs he
 
 /-- The per-dimension step of Tag retrieval (`dimOffsetCount`): with `s`, `e` the start and end as
     converted to the dimension's unit and `p` the start as the scalar overload converts it,
